@@ -79,10 +79,11 @@ def removal_rules(fx, rep):
         u = [(sb, ce) for w, sb, ce in uses if w == who]
         addt("R36a", "topic in use by a data %s cannot be deleted" % who, bool(u) and all(not any(r in tf.mir.reachable(ce.true_target) for r in rem) for sb, ce in u),
              "no topic_name comparison against %ss leading away from the removal" % who)
-    cft = tf.body.touches_field(None, "content_filtered_topic_list") or tf.body.touches_field(None, "related_topic_name") or \
-        any(x.touches_field(None, "related_topic_name") for x in fx.descendants(t))
+    # the in-use test must look at the *related* topic of each content-filtered topic (its own topic_name is a different name)
+    cft = tf.body.touches_field(None, "content_filtered_topic_list") and \
+        (tf.body.touches_field(None, "related_topic_name") or any(x.touches_field(None, "related_topic_name") for x in fx.descendants(t)))
     addt("R36d", "topic referenced by a content-filtered topic cannot be deleted", cft,
-         "delete_user_defined_topic never looks at content_filtered_topic_list: a topic that is the related topic of a ContentFilteredTopic "
+         "delete_user_defined_topic never compares related_topic_name of the content_filtered_topic_list entries: a topic that is the related topic of a ContentFilteredTopic "
          "(and thereby used by its readers) can be deleted")
     return n
 
@@ -147,3 +148,9 @@ def run(ctx, rep):
     rep.floor("R36c", c, 4, "collections tested by is_empty")
     k = not_found(fx, rep)
     rep.floor("R36b", k, 30, "handle lookups in *_methods functions")
+    # R35a/R35b (shared with C35): AlreadyDeleted for a stale object relies on handles never being handed out twice: the entity
+    # counters they derive from never wrap
+    from rules import c35
+    before = len(rep.obls)
+    floors_before = len(rep.floors)
+    c35.run(ctx, rep)
